@@ -289,7 +289,7 @@ def prepare(seed: int, tier: str, workers: int, calibrate: bool = True,
 # ---------------------------------------------------------------------- workload
 
 EDITS = ["project_item", "table_prop", "col_prop", "note_text", "rename_table", "add_column", "enum_item",
-         "add_table", "clear_refs", "add_sticky", "col_note", "table_alias"]
+         "add_table", "clear_refs", "add_sticky", "col_note", "table_alias", "unset_col_type", "detach_ref_col"]
 
 
 def apply_edit(db: Any, kind: str, tagno: int) -> bool:
@@ -321,6 +321,13 @@ def apply_edit(db: Any, kind: str, tagno: int) -> bool:
         del db.refs[:]
     elif kind == "add_sticky":
         db.add(StickyNote(v, v))
+    elif kind == "unset_col_type" and db.tables and db.tables[-1].columns:
+        # the caller's own result now refuses its SQL text (a required attribute is missing); nobody else's may
+        db.tables[-1].columns[-1].type = None
+    elif kind == "detach_ref_col" and db.refs and db.refs[0].col2 and db.refs[0].col2[0].table is not None:
+        # ... and here both texts (a reference ends at a column that left its table)
+        c = db.refs[0].col2[0]
+        c.table.delete_column(c)
     else:
         return False
     return True
@@ -380,7 +387,7 @@ def gen_workload(rseed: int, tier: str) -> Dict[str, Any]:
                 ops.append(op_)
                 nres += 1
             elif r < 0.8:
-                ops.append(["edit", g.randrange(nres), g.choice(EDITS)])
+                ops.append(["edit", g.randrange(nres), g.choice(EDITS[-2:]) if g.random() < 0.3 else g.choice(EDITS)])
             elif r < 0.9:
                 ops.append(["render", g.randrange(nres)])
             else:
